@@ -45,7 +45,7 @@ type tdResult struct {
 }
 
 // runTeardown injects one fault into a running advertiser / monitor at virtual instant T.
-func runTeardown(t *testing.T, monitor bool, fault string, flood int) (res tdResult) {
+func runTeardown(t *testing.T, monitor bool, fault string, flood int, busy time.Duration) (res tdResult) {
 	defer func() {
 		if p := recover(); p != nil {
 			// synctest panics when goroutines of the bubble are left blocked forever
@@ -70,11 +70,24 @@ func runTeardown(t *testing.T, monitor bool, fault string, flood int) (res tdRes
 		mm := NewMetrics(metricslite.NewMemory(), "test", time.Time{}, state, []config.Interface{cfg})
 		cctx := NewContext(log.New(io.Discard, "", 0), mm, state)
 		onWrite := func(w *vWrite) error {
+			if busy > 0 && w.Dst == netip.MustParseAddr("fe80::b") {
+				// another transmission is in flight (slow) while the failing one reports its error
+				time.Sleep(busy)
+				return nil
+			}
 			mu.Lock()
 			defer mu.Unlock()
 			if failing && !w.Dst.IsMulticast() {
 				failing = false
 				failAt = vNow()
+				// the burst arrives while the scheduler is going down: nobody drains the request channel
+				c := conns[len(conns)-1]
+				go func() {
+					time.Sleep(time.Millisecond)
+					for j := 0; j < flood; j++ {
+						c.readC <- rs(fmt.Sprintf("fe80::%x", 0x100+j))
+					}
+				}()
 				return faultErr(fault[len("FWrite"):])
 			}
 			return nil
@@ -94,6 +107,7 @@ func runTeardown(t *testing.T, monitor bool, fault string, flood int) (res tdRes
 			}
 			c := newVConn()
 			c.onWrite = onWrite
+
 			conns = append(conns, c)
 			dialAt = append(dialAt, vNow())
 			return &system.DialContext{Conn: c, Interface: &net.Interface{Name: "v0", HardwareAddr: vMAC}, IP: netip.MustParseAddr("fe80::1")}, nil
@@ -114,8 +128,10 @@ func runTeardown(t *testing.T, monitor bool, fault string, flood int) (res tdRes
 		old := conns[0]
 
 		// a burst of solicitations at the fault instant (more than the request channel holds)
-		for j := 0; j < flood; j++ {
-			old.readC <- rs(fmt.Sprintf("fe80::%x", 0x100+j))
+		if len(fault) < 6 || fault[:6] != "FWrite" {
+			for j := 0; j < flood; j++ {
+				old.readC <- rs(fmt.Sprintf("fe80::%x", 0x100+j))
+			}
 		}
 		var faultAt int64
 		switch fault {
@@ -131,6 +147,10 @@ func runTeardown(t *testing.T, monitor bool, fault string, flood int) (res tdRes
 				}
 			}
 		case "FWriteSyscall", "FWritePerm", "FWriteOther":
+			if busy > 0 {
+				old.readC <- rs("fe80::b")
+				time.Sleep(600 * time.Millisecond) // its WriteTo has begun and blocks for `busy`
+			}
 			mu.Lock()
 			failing = true
 			mu.Unlock()
@@ -248,10 +268,15 @@ func TestVerifC10TD(t *testing.T) {
 				if !out.Wants(id) {
 					continue
 				}
-				res := runTeardown(t, mon, f, fl)
+				busy := time.Duration(0)
+				if len(f) > 6 && f[:6] == "FWrite" && fl >= 17 {
+					busy = 3 * time.Second // the scheduler waits for this one before returning the error
+				}
+				res := runTeardown(t, mon, f, fl, busy)
+				slack := int64(busy)
 				out.Emit(verifh.Case{
 					ID: id,
-					Coq: verifh.App("mkTd", verifh.B(mon), f, verifh.Z(int64(fl)), res.outcome, verifh.Z(res.delay),
+					Coq: verifh.App("mkTd", verifh.B(mon), f, verifh.Z(int64(fl)), res.outcome, verifh.Z(res.delay), verifh.Z(slack),
 						verifh.Z(int64(res.ioAfter)), verifh.B(res.canary), verifh.B(res.leak)),
 					Input:    map[string]any{"monitor": mon, "fault": f, "flood": fl},
 					Observed: map[string]any{"outcome": res.outcome, "delay_ns": res.delay, "io_after": res.ioAfter, "canary": res.canary, "leak": res.leak},
